@@ -19,6 +19,19 @@ type CEnv struct {
 	Bound map[string]*Val
 	Reads map[string]bool
 	Fuel  *Term
+	Hyp   bool // translating a formula that will be assumed: quantifiers range over the fuel of recursive spec functions too
+}
+
+// HypFormula translates e as a hypothesis.
+func (c *CEnv) HypFormula(e *CExpr) *Term {
+	h := *c
+	h.Hyp = true
+	if c.Old != nil {
+		o := *c.Old
+		o.Hyp = true
+		h.Old = &o
+	}
+	return h.Formula(e)
 }
 
 type ctransErr struct{ msg string }
@@ -319,6 +332,14 @@ func (c *CEnv) quant(e *CExpr) *Val {
 		}
 	}
 	in := c.withBound(vs)
+	var fuelVar *Term
+	if c.Hyp && e.Op == "forall" && len(e.Trig) > 0 {
+		fuelVar = Var("fu$"+strconv.Itoa(c.X.nextID()), SFuel)
+		in.Fuel = fuelVar
+		if in.Old != nil {
+			in.Old.Fuel = fuelVar
+		}
+	}
 	body := in.Formula(e.Args[0])
 	var pats [][]*Term
 	for _, tg := range e.Trig {
@@ -329,6 +350,25 @@ func (c *CEnv) quant(e *CExpr) *Val {
 		pats = append(pats, p)
 	}
 	boolTy := types.Typ[types.Bool]
+	if fuelVar != nil {
+		used := false
+		for _, p := range pats {
+			for _, pt := range p {
+				syms := map[string]Sort{}
+				pt.Collect(map[string]bool{}, syms, map[string]bool{})
+				if _, ok := syms[fuelVar.Op]; ok {
+					used = true
+				}
+			}
+		}
+		if used {
+			vars = append(vars, fuelVar)
+		} else {
+			// the fuel variable does not occur in a pattern: fall back to the default fuel
+			m := map[string]*Term{fuelVar.Op: baseFuel}
+			body = body.Subst(m)
+		}
+	}
 	if e.Op == "forall" {
 		return &Val{T: Forall(vars, pats, Implies(And(guards...), body), "q."+vars[0].Op), Ty: boolTy}
 	}
@@ -353,6 +393,8 @@ func (c *CEnv) call(e *CExpr) *Val {
 		o := *c.Old
 		o.Bound = c.Bound
 		o.Reads = c.Reads
+		o.Fuel = c.Fuel
+		o.Hyp = c.Hyp
 		return o.tr(e.Args[0])
 	case "len":
 		a := arg(0)
@@ -423,6 +465,62 @@ func (c *CEnv) call(e *CExpr) *Val {
 		return &Val{T: a.T, Ty: intTy}
 	case "inSet":
 		return &Val{T: Select(arg(0).T, arg(1).T), Ty: boolTy}
+	}
+	if e.Op == "as" {
+		a := arg(0)
+		if len(e.Args) != 2 {
+			cfail("as(x, T)")
+		}
+		ty, ok := w.parseTypeText(e.Args[1].String(), c.Pkg)
+		if !ok {
+			cfail("as: unknown type %s", e.Args[1])
+		}
+		if _, isStruct := ty.Underlying().(*types.Struct); isStruct {
+			ty = types.NewPointer(ty)
+		}
+		return &Val{T: a.T, Ty: ty}
+	}
+	if lf, ok := w.CS.Logics[e.Op]; ok {
+		if len(e.Args) != len(lf.Params) {
+			cfail("%s expects %d arguments", lf.Name, len(lf.Params))
+		}
+		rt, ok := w.parseTypeText(lf.Result, c.Pkg)
+		if !ok {
+			cfail("logic %s: unknown result type %s", lf.Name, lf.Result)
+		}
+		rs, _ := w.SortOf(rt)
+		var ts []*Term
+		var sorts []Sort
+		for i := range lf.Params {
+			a := arg(i)
+			pt, _ := w.parseTypeText(lf.Params[i].Type, c.Pkg)
+			a = c.X.coerce(c.St, a, pt)
+			ts = append(ts, a.T)
+			sorts = append(sorts, a.T.Sort)
+		}
+		sym := "logic." + lf.Name
+		w.BG.Funs[sym] = FunSig{Name: sym, Args: sorts, Res: rs}
+		return &Val{T: App(sym, rs, ts...), Ty: rt}
+	}
+	if p, ok := w.CS.Preds[e.Op]; ok {
+		if len(e.Args) != len(p.Params) {
+			cfail("%s expects %d arguments", p.Name, len(p.Params))
+		}
+		if p.Body == nil {
+			cfail("predicate %s has no body", p.Name)
+		}
+		vs := map[string]*Val{}
+		for i, pv := range p.Params {
+			a := arg(i)
+			if ty, ok := w.parseTypeText(pv.Type, c.Pkg); ok {
+				a = &Val{T: a.T, Ty: ty, Fields: a.Fields, HBase: a.HBase, HStruct: a.HStruct, HPath: a.HPath}
+			}
+			vs[pv.Name] = a
+		}
+		in := *c
+		in.Names = vs
+		in.Bound = map[string]*Val{}
+		return in.tr(p.Body.Expr)
 	}
 	if sf := w.lookupSpec(e.Op, c.Pkg); sf != nil {
 		var args []*Val
